@@ -15,6 +15,78 @@ import threading
 import zlib
 
 
+def _with_exit_offsets(code):
+    """bytecode offsets of the line events that start the implicit `__exit__(None, None, None)`
+    call of a `with` statement on its normal (no exception) path"""
+    import dis
+    ins = list(dis.get_instructions(code))
+    out = set()
+    for i in range(len(ins) - 3):
+        a, b, c, d = ins[i], ins[i + 1], ins[i + 2], ins[i + 3]
+        if (a.opname == 'LOAD_CONST' and a.argval is None and b.opname == 'LOAD_CONST' and b.argval is None
+                and c.opname == 'LOAD_CONST' and c.argval is None and d.opname == 'CALL' and d.arg == 2):
+            out.add(a.offset)
+    return frozenset(out)
+
+
+ACTIVE = [None]       # the scheduler currently running simulated threads in this process
+
+
+class SimLock(object):
+    """Stand-in for a threading.Lock / RLock owned by the system under test.
+
+    A simulated thread that is pre-empted while holding a real lock would dead-lock
+    the simulation as soon as the thread holding the baton blocks on that lock.  A
+    SimLock never blocks the baton holder: on contention it tells the scheduler that
+    this thread is blocked and hands the baton to another runnable thread, then
+    retries.  Outside a simulation it behaves like the lock it wraps."""
+
+    def __init__(self, real):
+        self._real = real
+
+    def acquire(self, blocking=True, timeout=-1):
+        s = ACTIVE[0]
+        if s is None or s.current is None or threading.current_thread().name != 'sim-%d' % s.current:
+            return self._real.acquire(blocking, timeout)
+        while not self._real.acquire(False):
+            if not blocking:
+                return False
+            s._blocked_on_lock(s.current, sys._getframe(1))
+        return True
+
+    def release(self):
+        self._real.release()
+
+    def locked(self):
+        return self._real.locked() if hasattr(self._real, 'locked') else False
+
+    def __enter__(self):
+        self.acquire()
+        return self
+
+    def __exit__(self, *a):
+        self.release()
+        return False
+
+
+def wrap_module_locks(modules):
+    """Replace module-level (and class-level) lock objects of the given SUT modules by
+    SimLocks.  Returns the number of locks wrapped."""
+    lock_types = (type(threading.Lock()), type(threading.RLock()))
+    n = 0
+    for mod in modules:
+        for name, val in list(vars(mod).items()):
+            if isinstance(val, lock_types):
+                setattr(mod, name, SimLock(val))
+                n += 1
+            elif isinstance(val, type) and getattr(val, '__module__', None) == mod.__name__:
+                for an, av in list(vars(val).items()):
+                    if isinstance(av, lock_types):
+                        setattr(val, an, SimLock(av))
+                        n += 1
+    return n
+
+
 class SimCancelled(BaseException):
     """Injected cancellation (models KeyboardInterrupt / task cancel / time-out)."""
 
@@ -242,6 +314,9 @@ class Sched(object):
         self.on_switch = None            # hook(tid_from, tid_to)
         self.on_step = None              # hook(tid, frame) - must be deterministic & cheap
         self.budget_hit = False
+        self.lock_waits = 0
+        self._deferred = [None] * nthreads
+        self._unsafe = {}
 
     # -- helpers ----------------------------------------------------------
     def _others(self, tid):
@@ -263,8 +338,18 @@ class Sched(object):
         ol = self.opline[tid] = self.opline[tid] + 1
         if self.on_step is not None:
             self.on_step(tid, frame)
+        if self._deferred[tid] is not None and not self._unsafe_point(frame):
+            f, self._deferred[tid] = self._deferred[tid], None
+            self._fire(f, tid, ol, frame)
         if self.faults:
             f = self.faults.get((self.curop[tid], ol))
+            if f is not None and self._unsafe_point(frame):
+                # the line event that precedes the implicit __exit__ call of a `with` statement on
+                # its normal path lies outside the statement's own exception handler: an exception
+                # raised exactly there skips __exit__ (a CPython-level window no library can close).
+                # Injecting there would blame the library for it, so the fault moves to the next event.
+                self._deferred[tid] = f
+                f = None
             if f is not None:
                 where = '%s:%d' % (os.path.basename(frame.f_code.co_filename), frame.f_lineno)
                 self.fired.append((f, self.curop[tid], ol, where))
@@ -290,6 +375,38 @@ class Sched(object):
         if tgt != tid:
             self._switch(tid, tgt, frame)
 
+    def _fire(self, f, tid, ol, frame):
+        where = '%s:%d' % (os.path.basename(frame.f_code.co_filename), frame.f_lineno)
+        self.fired.append((f, self.curop[tid], ol, where))
+        self.log.add('fault', f, tid, self.curop[tid], ol, where)
+        if f == 'cancel':
+            raise SimCancelled('cancelled at %s' % where)
+        elif f == 'oom':
+            raise MemoryError('simulated allocation failure at %s' % where)
+
+    def _unsafe_point(self, frame):
+        code = frame.f_code
+        u = self._unsafe.get(code)
+        if u is None:
+            u = self._unsafe[code] = _with_exit_offsets(code)
+        return frame.f_lasti in u
+
+    def _blocked_on_lock(self, tid, frame):
+        """tid (holding the baton) found a SUT lock taken: run somebody else, then retry"""
+        others = [t for t in range(self.n) if t != tid and not self.done[t]]
+        if not others:
+            raise RuntimeError('dead-lock in the system under test: thread %d waits for a lock nobody can release' % tid)
+        self.lock_waits += 1
+        if self.lock_waits > 200000:
+            raise RuntimeError('dead-lock / live-lock in the system under test on a module-level lock')
+        n = self.ycount[tid] = self.ycount[tid] + 1
+        tgt = self.decider.at_yield(tid, n, others, self.steps)
+        if tgt == tid:
+            tgt = others[self.lock_waits % len(others)]
+            self.decider.switches.append([tid, n, tgt])
+        self.log.add('lockwait', tid, tgt)
+        self._switch(tid, tgt, frame)
+
     def _switch(self, tid, tgt, frame):
         site = (os.path.basename(frame.f_code.co_filename), frame.f_lineno)
         self.sites.add(site)
@@ -305,6 +422,7 @@ class Sched(object):
     def begin_op(self, tid, op_id):
         self.curop[tid] = op_id
         self.opline[tid] = 0
+        self._deferred[tid] = None
         sys.settrace(self.tracers[tid].gtrace)   # (re-)arm: an injected exception unsets it
 
     def end_op(self, tid):
@@ -338,11 +456,14 @@ class Sched(object):
                                     name='sim-%d' % t, daemon=True) for t in range(self.n)]
         for th in threads:
             th.start()
+        ACTIVE[0] = self
         first = self.decider.start(list(range(self.n)))
         self.log.add('start', first)
         self.current = first
         self.sems[first].release()
-        if not self.all_done.wait(wall_timeout):
+        finished = self.all_done.wait(wall_timeout)
+        ACTIVE[0] = None
+        if not finished:
             raise RuntimeError('simulated threads did not finish within %ss (harness hang)' % wall_timeout)
         for th in threads:
             th.join(5)
